@@ -412,4 +412,131 @@ theorem dispW_eq (render : α → List Char) (m : Matrix α) (h : m.Coh)
     simp only [List.mem_map]
     exact ⟨lines (render x), ⟨x, hmem, rfl⟩, maxOf_lines_noNL _ (hs x hmem)⟩
 
+/-! ### the same with arbitrary first-line prefix and labels (`Debug`) -/
+
+theorem rowLine_spec_gen (render : α → List Char) (m : Matrix α) (h : m.Coh) (hfit : m.data.size ≤ usizeMax)
+    (hs : ∀ x ∈ m.data.toList, '\n' ∉ render x) (w : Nat) (label : Nat → List Char)
+    {row : Nat} (hr : row < m.nrows) :
+    ∀ (todo col : Nat) (cache : Array (List (List Char))) (acc : List Char),
+      col + todo = m.ncols → cache.size = m.data.size →
+      (∀ c, col ≤ c → c < m.ncols →
+        ∃ x, m.at? row c = some x ∧ cache[m.idx row c]? = some (lines (render x))) →
+      ∃ cache', rowLine m.order m.shape row m.ncols w label col todo cache acc =
+          .ok (acc ++ rowSpec (fun c => label (m.idx row c) ++
+              ((m.at? row c).map fun x => cellTxt w (render x)).getD []) col todo,
+            cache') ∧
+        cache'.size = m.data.size ∧
+        ∀ k, (∀ c, c < m.ncols → k ≠ m.idx row c) → cache'[k]? = cache[k]? := by
+  intro todo
+  induction todo with
+  | zero =>
+    intro col cache acc _ hsz _
+    exact ⟨cache, by simp [rowLine, rowSpec], hsz, fun _ _ => rfl⟩
+  | succ n ih =>
+    intro col cache acc hcol hsz hinv
+    have hc : col < m.ncols := by omega
+    obtain ⟨x, hx, hcx⟩ := hinv col (Nat.le_refl _) hc
+    have hnl := hs x (at?_mem m hx)
+    rw [lines_noNL _ hnl] at hcx
+    by_cases he : render x = []
+    · rw [if_pos he] at hcx
+      obtain ⟨cache', h1, h2, h3⟩ := ih (col + 1) cache
+        (acc ++ (if col ≠ 0 then spaceW INTER_GAP else []) ++ label (m.idx row col) ++ spaceW w)
+        (by omega) hsz (fun c hc1 hc2 => hinv c (by omega) hc2)
+      refine ⟨cache', ?_, h2, h3⟩
+      simp only [rowLine, to_flattened_idx m h hfit hr hc, cell, hcx, bind, Except.bind]
+      rw [h1]
+      simp [rowSpec, hx, he, cellTxt]
+    · rw [if_neg he] at hcx
+      have hinv' : ∀ c, col + 1 ≤ c → c < m.ncols →
+          ∃ x, m.at? row c = some x ∧
+            (cache.set! (m.idx row col) [])[m.idx row c]? = some (lines (render x)) := by
+        intro c hc1 hc2
+        obtain ⟨y, hy1, hy2⟩ := hinv c (by omega) hc2
+        refine ⟨y, hy1, ?_⟩
+        have hne : m.idx row col ≠ m.idx row c := by
+          intro e
+          have := (m.idx_inj hr hc hr hc2 e).2
+          omega
+        rw [Array.set!_eq_setIfInBounds, Array.getElem?_setIfInBounds_ne hne]
+        exact hy2
+      obtain ⟨cache', h1, h2, h3⟩ := ih (col + 1) (cache.set! (m.idx row col) [])
+        (acc ++ (if col ≠ 0 then spaceW INTER_GAP else []) ++ label (m.idx row col) ++
+          padRight (render x) w) (by omega)
+        (by simp [hsz]) hinv'
+      refine ⟨cache', ?_, h2, ?_⟩
+      · simp only [rowLine, to_flattened_idx m h hfit hr hc, cell, hcx, bind, Except.bind]
+        rw [h1]
+        simp [rowSpec, hx, he, cellTxt]
+      · intro k hk
+        rw [h3 k hk, Array.set!_eq_setIfInBounds, Array.getElem?_setIfInBounds_ne (Ne.symm (hk col hc))]
+
+/-- one first line of a row with prefix `firstPre r` and per-cell label `firstLabel (m.idx r c)` -/
+def rowTxtGen (render : α → List Char) (m : Matrix α) (w : Nat)
+    (firstPre firstLabel : Nat → List Char) (r : Nat) : List Char :=
+  firstPre r ++ ['['] ++
+    rowSpec (fun c => firstLabel (m.idx r c) ++
+      ((m.at? r c).map fun x => cellTxt w (render x)).getD []) 0 m.ncols ++ [']', '\n']
+
+theorem rowsLoop_spec_gen (render : α → List Char) (m : Matrix α) (h : m.Coh) (hfit : m.data.size ≤ usizeMax)
+    (hs : ∀ x ∈ m.data.toList, '\n' ∉ render x) (w ht : Nat) (hht : ht ≤ 1)
+    (firstPre : Nat → List Char) (morePre : List Char) (firstLabel moreLabel : Nat → List Char) :
+    ∀ (todo row : Nat) (cache : Array (List (List Char))) (acc : List Char),
+      row + todo = m.nrows → cache.size = m.data.size →
+      (∀ r c, row ≤ r → r < m.nrows → c < m.ncols →
+        ∃ x, m.at? r c = some x ∧ cache[m.idx r c]? = some (lines (render x))) →
+      rowsLoop m.order m.shape m.ncols w ht firstPre morePre firstLabel moreLabel
+          row todo cache acc =
+        .ok (acc ++ (List.range' row todo).flatMap fun r =>
+          rowTxtGen render m w firstPre firstLabel r) := by
+  intro todo
+  induction todo with
+  | zero => intro row cache acc _ _ _; simp [rowsLoop]
+  | succ n ih =>
+    intro row cache acc hrow hsz hinv
+    have hr : row < m.nrows := by omega
+    have hz : ht - 1 = 0 := by omega
+    obtain ⟨cache1, h1, h2, h3⟩ := rowLine_spec_gen render m h hfit hs w firstLabel hr m.ncols 0 cache
+      (firstPre row ++ ['[']) (by omega) hsz (fun c _ hc => hinv row c (Nat.le_refl _) hr hc)
+    simp only [rowsLoop, h1, hz, moreLines, bind, Except.bind]
+    rw [ih (row + 1) cache1 _ (by omega) h2]
+    · simp [List.range'_succ, rowTxtGen]
+    · intro r c hr1 hr2 hc
+      obtain ⟨y, hy1, hy2⟩ := hinv r c (by omega) hr2 hc
+      refine ⟨y, hy1, ?_⟩
+      rw [h3 _ ?_]
+      · exact hy2
+      · intro c' hc' e
+        have := (m.idx_inj hr2 hc hr hc' e).1
+        omega
+
+theorem debugHeader_spec (ncols iw w : Nat) :
+    ∀ (todo col : Nat) (acc : List Char),
+      debugHeader ncols iw w col todo acc =
+        acc ++ rowSpec (fun c => padLeftNat c iw ++ spaceW INNER_GAP ++ spaceW w) col todo := by
+  intro todo
+  induction todo with
+  | zero => intro col acc; simp [debugHeader, rowSpec]
+  | succ n ih =>
+    intro col acc
+    rw [debugHeader, ih, rowSpec]
+    simp [List.append_assoc]
+
+theorem debug_unfold (render : α → List Char) (m : Matrix α) (hne : m.data.size ≠ 0) :
+    debug render m =
+      (do
+        let body ← rowsLoop m.order m.shape m.ncols (dispW render m) (dispH render m)
+          (fun row => spaceW TAB_SIZE ++ padLeftNat row (toString m.data.size).length ++ spaceW OUTER_GAP)
+          (spaceW TAB_SIZE ++ spaceW (toString m.data.size).length ++ spaceW OUTER_GAP ++ [' '])
+          (fun index => padLeftNat index (toString m.data.size).length ++ spaceW INNER_GAP)
+          (fun _ => spaceW (toString m.data.size).length ++ spaceW INNER_GAP) 0 m.nrows
+          (cache0 render m) []
+        pure (['[', '\n'] ++
+          debugHeader m.ncols (toString m.data.size).length (dispW render m) 0 m.ncols
+            (spaceW TAB_SIZE ++ spaceW (toString m.data.size).length ++ spaceW OUTER_GAP ++ [' ']) ++
+          ['\n'] ++ body ++ [']'])) := by
+  unfold debug
+  rw [if_neg hne]
+  rfl
+
 end Matreex.Fmt
